@@ -1,5 +1,6 @@
 """C17 - running out of memory inside an operation is reported, not
 corrupting (fault enumeration with the guarded allocation hook)."""
+from ..harness import safe_repr as _srepr  # noqa: E402
 import gc
 
 from .. import minidb, families, gen, harness, hist, setops, walker
@@ -404,7 +405,7 @@ def run_container(fam, kind, rng, rec, ci, arm, count):
             c = rebuild()
             wb = walker.walk(c, is_mapping) if is_tree else None
             sweep()
-            rec.journal(repr((desc, name, n, N)))
+            rec.journal(_srepr((desc, name, n, N)))
             arm(n)
             out = None
             res = None
